@@ -14,6 +14,16 @@ TIES = {  # tie lemma -> the Go function(s) it ties
     "tie_read": "Read (the recursion through the readers)", "tie_decode": "Decode",
     "tie_hexEncode": "hex.Encode", "tie_hexDecode": "hex.Decode",
 }
+# T1, streaming path: one relation lemma per reader function regenerated a second time with the io.Reader as any byte
+# source (lean/GeomV/C05/TieGenS.lean, namespace GenS)
+TIES_S = {
+    "pointReader_rel": "pointReader", "readPoints_rel": "readPoints", "lineStringReader_rel": "lineStringReader",
+    "polygonReader_rel": "polygonReader", "multiPointReader_rel": "multiPointReader", "multiLineStringReader_rel": "multiLineStringReader",
+    "multiPolygonReader_rel": "multiPolygonReader", "geometryCollectionReader_rel": "geometryCollectionReader",
+    "wkbReaders_rel": "init (the dispatch table wkbReaders)", "Read_rel": "Read", "readS_rel": "Read (the recursion through the readers)",
+}
+STREAM_GEN = ["C05_stream_gen", "C05_stream_gen_model", "C05_stream_read_gen", "C05_stream_truncated_gen"]
+FUEL = ["C05_truncated_decode", "C05_decode_no_fuel", "C05_fuel_irrelevant"]
 SRC = ["C05_roundtrip_src", "C05_layout_src", "C05_mixed_order_src", "C05_decode_mixed_src", "C05_unsupported_src", "C05_hex_src",
        "C05_stream_model_src", "C05_truncated_src", "C05_roundtrip_iff_src", "C05_decoded_encodable_src"]
 COUNT = ["C05_decoded_encodable", "C05_roundtrip_iff", "C05_count_wraps"]
@@ -22,14 +32,15 @@ BIN = ["C05_bin_uint32", "C05_bin_uint64", "C05_bin_put", "C05_bin_readU32", "C0
 STREAM = ["C05_readfull", "C05_stream_model", "C05_stream_read", "C05_read_sequence", "C05_truncated", "C05_stream_truncated"]
 CFG = {
     "id": "C05",
-    "lean_modules": ["GeomV.C05.Proofs", "GeomV.C05.ProofsStream", "GeomV.C05.ProofsCount", "GeomV.C05.ProofsBin", "GeomV.C05.Tie", "GeomV.C05.TieStream"],
+    "lean_modules": ["GeomV.C05.Proofs", "GeomV.C05.ProofsStream", "GeomV.C05.ProofsCount", "GeomV.C05.ProofsBin", "GeomV.C05.ProofsFuel", "GeomV.C05.Tie", "GeomV.C05.TieStream", "GeomV.C05.TieGenS"],
     "exe": "geomv_c05",
     "go_cmd": "c05",
     "stages": ["go:gen", "lean:prep", "go:impl", "lean:judge"],
     "theorems": [T + n for n in ["C05_mixed_order", "C05_decode_mixed", "C05_layout", "C05_roundtrip",
                                  "C05_type_preserved", "C05_unsupported", "C05_hex", "C05_hex_lower"]
                                 + [n for n in TIES if n != "tie_dispatch"] + SRC]
-                 + [T + "Stream." + n for n in STREAM] + [T + n for n in COUNT] + [T + "BinStd." + n for n in BIN],
+                 + [T + "Stream." + n for n in STREAM] + [T + n for n in COUNT] + [T + "BinStd." + n for n in BIN]
+                 + [T + "GenS." + n for n in TIES_S] + [T + n for n in STREAM_GEN] + [T + "Fuel." + n for n in FUEL],
     "trusted_base": [
         "Lean 4.33.0 kernel; axioms of every theorem printed by #print axioms must be within {propext, Classical.choice, Quot.sound}",
         "T1: harness/cmd/c05/extract.go (go/ast, ~1900 lines, statement-level, subset listed in its header) regenerates lean/GeomV/C05/Gen.lean from "
@@ -118,19 +129,20 @@ def pregen(check):
             drop("T1 tie: Go function(s) outside the translatable subset, the regenerated Gen.lean does not elaborate: "
                  + " | ".join(p.stderr.strip().splitlines())[:900])
             return
-        b = subprocess.run(["lake", "build", T + "Tie"], cwd=vcheck.LEAN, stdout=subprocess.PIPE, stderr=subprocess.STDOUT, text=True)
+        b = subprocess.run(["lake", "build", T + "Tie", T + "TieGenS"], cwd=vcheck.LEAN, stdout=subprocess.PIPE, stderr=subprocess.STDOUT, text=True)
     if b.returncode == 0:
         return
     open(os.path.join(check.rundir, "tie.log"), "w").write(b.stdout)
-    errs = re.findall(r"error: (?:\./)?GeomV/C05/(Gen|Tie)\.lean:(\d+):\d+: (.*)", b.stdout)
+    errs = re.findall(r"error: (?:\./)?GeomV/C05/(Gen|Tie|TieGenS)\.lean:(\d+):\d+: (.*)", b.stdout)
     if any(f == "Gen" for f, _, _ in errs) or not errs:
         drop("T1 tie: the regenerated Gen.lean does not elaborate: " + " | ".join(m for f, _, m in errs if f == "Gen")[:600]
              + ("" if errs else b.stdout[-600:]))
         return
     # name the tie lemma(s) whose proof failed: the last `theorem` at or before each error line
-    src = open(os.path.join(vcheck.LEAN, "GeomV", "C05", "Tie.lean")).read().split("\n")
+    srcs = {f: open(os.path.join(vcheck.LEAN, "GeomV", "C05", f + ".lean")).read().split("\n") for f in ("Tie", "TieGenS")}
     bad = []
-    for _, ln, _ in errs:
+    for fl, ln, _ in errs:
+        src = srcs[fl]
         name = "?"
         for i in range(min(int(ln), len(src)) - 1, -1, -1):
             m = re.match(r"theorem (\w+)", src[i])
@@ -139,7 +151,7 @@ def pregen(check):
                 break
         if name not in bad:
             bad.append(name)
-    drop("T1 tie broken: " + "; ".join("%s — the Go function %s no longer denotes the model's function" % (n, TIES.get(n, "(helper lemma)")) for n in bad))
+    drop("T1 tie broken: " + "; ".join("%s — the Go function %s no longer denotes the model's function" % (n, TIES.get(n, TIES_S[n] + " (streaming path)" if n in TIES_S else "(helper lemma)")) for n in bad))
 
 
 def post(check, pairs, stats):
